@@ -19,13 +19,15 @@ func NextOne(bm []uint64, i, end int32) int32 {
 		nxt = wordIdx<<6 + int32(bits.TrailingZeros64(word))
 	} else {
 
-		i = (i + 63) & ^63
+		// Walk word indexes, not bit positions: a bit position past the last
+		// word of a 2^31-bit bitmap does not fit in int32.
+		endWord := (end-1)>>6 + 1
 
-		for ; i < end; i += 64 {
+		for w := wordIdx + 1; w < endWord; w++ {
 
-			word := bm[i>>6]
+			word := bm[w]
 			if word != 0 {
-				nxt = i + int32(bits.TrailingZeros64(word))
+				nxt = w<<6 + int32(bits.TrailingZeros64(word))
 				break
 			}
 		}
